@@ -282,6 +282,9 @@ MUTANTS = [
      "old": "                yield \"]\"\n            except:\n                pass\n            finally:\n                try:\n                    # externalise while the step lock is still held (see run-step)\n                    if self._external_state_adapter != None:\n                        self._external_state_adapter.save_instance(self._instance_manager._get_instance_state(instance_uuid))\n                finally:\n                    release_lock()\n",
      "new": "                yield \"]\"\n                if self._external_state_adapter != None:\n                    self._external_state_adapter.save_instance(self._instance_manager._get_instance_state(instance_uuid))\n            except:\n                pass\n            finally:\n                release_lock()\n",
      "note": "the stream saves only when it ran to completion (a client that hangs up leaves the state file stale)"},
+    {"id": "c09-managers-left-joined", "property": "C09", "file": B,
+     "old": "                    df = df.join(tmp_df, how=\"outer\")", "new": "                    df = df.join(tmp_df)",
+     "note": "reversal of ac14197"},
     # ---- C15
     {"id": "c15-undecorated-stop-instance", "property": "C15", "file": S,
      "old": "    @token_required\n    def _stop_instance_resource", "new": "    def _stop_instance_resource"},
